@@ -109,7 +109,12 @@ class Attr:
     @classmethod
     def from_attr_value(cls, name, value, **kwargs):
         if isinstance(value, Attr):
-            attr_spec = copy.deepcopy(value)
+            # (Declared defaults may hold modules, just as values do.)
+            from spec_classes.utils.mutation import (  # pylint: disable=import-outside-toplevel,cyclic-import
+                protect_via_deepcopy,
+            )
+
+            attr_spec = protect_via_deepcopy(value)
         elif isinstance(value, dataclasses.Field):
             attr_spec = Attr(
                 default=MISSING
